@@ -34,7 +34,7 @@ Section KL.
   | OGetIdx (i : Z) | OGetKey (k : K) | OGetSlice (a b : option Z) (s : Z)
   | OSetIdx (i : Z) (x : item) | OSetKey (k : K) (x : item) | OSetSlice
   | ODelIdx (i : Z) | ODelKey (k : K) | ODelSlice
-  | OInsert (i : Z) (x : item) | OAppend (x : item)
+  | OInsert (i : Z) (x : item) | OInsertBadPos (x : item) | OAppend (x : item)
   | OExtend (xs : list item) | OExtendSelf | OIAdd (xs : list item)
   | OPop (i : option Z) | ORemove (x : item) | OReverse | OClear
   | OAdd (xs : list item) | ORAdd (xs : list item)
@@ -59,6 +59,15 @@ Section KL.
         else (Ok RNone,
               mk (insert_at (clamp_index (zlen (lst s)) i) it (lst s))
                  (dict_set k it (dct s)))
+    end.
+
+  (* KeyedList.insert with a position that is not an integer (a key, None):
+     item and duplicate-key checks come first, then list.insert raises TypeError *)
+  Definition insert_bad_pos (s : st) (x : item) : res out * st :=
+    match validate_item x with
+    | Err e => (Err e, s)
+    | Ok (it, k) =>
+        if dict_mem k (dct s) then (Err ValueErr, s) else (Err TypeErr, s)
     end.
 
   (* insert as executed during construction of an *unparameterised* instance:
@@ -220,6 +229,7 @@ Section KL.
         end
     | ODelSlice => (Err RuntimeErr, s)
     | OInsert i x => insert s i x
+    | OInsertBadPos x => insert_bad_pos s x
     | OAppend x => insert s (zlen (lst s)) x
     | OExtend xs => extend s xs
     | OExtendSelf => extend s (lst s)
